@@ -5,6 +5,7 @@ package main
 // path carries state from an earlier use of the object into this call.
 
 import (
+	"go/token"
 	"fmt"
 	"go/types"
 	"sort"
@@ -26,6 +27,18 @@ func fieldPath(v ssa.Value, recv ssa.Value) (string, bool) {
 			st := x.X.Type().Underlying().(*types.Pointer).Elem().Underlying().(*types.Struct)
 			parts = append([]string{st.Field(x.Field).Name()}, parts...)
 			v = x.X
+		case *ssa.UnOp:
+			// p.F.G where F is a pointer field: the load of p.F
+			if _, isFA := x.X.(*ssa.FieldAddr); isFA && x.Op == token.MUL && len(parts) > 0 {
+				if _, isPtr := x.Type().Underlying().(*types.Pointer); isPtr {
+					v = x.X
+					continue
+				}
+			}
+			if isRecvValue(v, recv) {
+				return strings.Join(parts, "."), len(parts) > 0
+			}
+			return "", false
 		default:
 			if isRecvValue(v, recv) {
 				return strings.Join(parts, "."), len(parts) > 0
@@ -39,6 +52,21 @@ func fieldPath(v ssa.Value, recv ssa.Value) (string, bool) {
 func isRecvValue(v ssa.Value, recv ssa.Value) bool {
 	if v == recv {
 		return true
+	}
+	// `if dst == nil { dst = &T{} }`: a phi of the tracked object and fresh allocations is the tracked object
+	if phi, ok := v.(*ssa.Phi); ok {
+		sawRecv := false
+		for _, e := range phi.Edges {
+			if e == recv {
+				sawRecv = true
+				continue
+			}
+			if a, isA := e.(*ssa.Alloc); isA && a.Heap {
+				continue
+			}
+			return false
+		}
+		return sawRecv
 	}
 	u, ok := v.(*ssa.UnOp)
 	if !ok {
@@ -74,7 +102,32 @@ func covered(written map[string]bool, p string) bool {
 	return false
 }
 
-func benignUse(u *ssa.UnOp) bool {
+func benignUse(u *ssa.UnOp) bool { return benignVal(u, 0) }
+
+// derefOnly: a loaded pointer that is only dereferenced to reach its fields or compared with nil
+func derefOnly(u *ssa.UnOp) bool {
+	if _, isPtr := u.Type().Underlying().(*types.Pointer); !isPtr {
+		return false
+	}
+	for _, r := range *u.Referrers() {
+		switch x := r.(type) {
+		case *ssa.FieldAddr, *ssa.DebugRef:
+		case *ssa.BinOp:
+			isNil := func(v ssa.Value) bool { c, ok := v.(*ssa.Const); return ok && c.Value == nil }
+			if !(isNil(x.X) || isNil(x.Y)) {
+				return false
+			}
+		default:
+			return false
+		}
+	}
+	return true
+}
+
+func benignVal(u ssa.Value, depth int) bool {
+	if depth > 3 {
+		return false
+	}
 	refs := u.Referrers()
 	if refs == nil || len(*refs) == 0 {
 		return true
@@ -82,9 +135,23 @@ func benignUse(u *ssa.UnOp) bool {
 	for _, r := range *refs {
 		switch x := r.(type) {
 		case *ssa.Call:
-			b, ok := x.Call.Value.(*ssa.Builtin)
-			if !ok || (b.Name() != "cap" && b.Name() != "len") {
+			if b, ok := x.Call.Value.(*ssa.Builtin); ok {
+				if b.Name() != "cap" && b.Name() != "len" {
+					return false
+				}
+				continue
+			}
+			// handed to a function of this package that itself only uses the capacity (e.g. encBlock: buf[:0])
+			cal := x.Call.StaticCallee()
+			if cal == nil || len(cal.Blocks) == 0 || x.Parent().Pkg != cal.Pkg {
 				return false
+			}
+			for k, a := range x.Call.Args {
+				if a == u {
+					if k >= len(cal.Params) || !benignVal(cal.Params[k], depth+1) {
+						return false
+					}
+				}
 			}
 		case *ssa.BinOp:
 			// comparison with nil
@@ -93,11 +160,9 @@ func benignUse(u *ssa.UnOp) bool {
 				return false
 			}
 		case *ssa.Slice:
-			// x = x[:0] style truncation: only the capacity survives
+			// x = x[:n] style re-slicing from index 0: only the capacity (and stale contents, which the caller must
+			// overwrite before reading: see the detail text of the obligation) survive; the old LENGTH does not
 			if !(x.Low == nil && x.High != nil) {
-				return false
-			}
-			if c, ok := x.High.(*ssa.Const); !ok || c.Value == nil || c.Int64() != 0 {
 				return false
 			}
 		case *ssa.DebugRef:
@@ -110,7 +175,7 @@ func benignUse(u *ssa.UnOp) bool {
 						return false
 					}
 				case *ssa.UnOp:
-					if !benignUse(y) {
+					if !benignVal(y, depth+1) {
 						return false
 					}
 				default:
@@ -125,15 +190,25 @@ func benignUse(u *ssa.UnOp) bool {
 }
 
 func (e *Eng) rbw(fn *ssa.Function, memo map[*ssa.Function]*rbwSummary, depth int) *rbwSummary {
-	if s, ok := memo[fn]; ok {
+	return e.rbwAt(fn, 0, map[rbwKey]*rbwSummary{}, depth)
+}
+
+type rbwKey struct {
+	fn  *ssa.Function
+	idx int
+}
+
+// rbwAt tracks the object passed as parameter idx.
+func (e *Eng) rbwAt(fn *ssa.Function, idx int, memo map[rbwKey]*rbwSummary, depth int) *rbwSummary {
+	if s, ok := memo[rbwKey{fn, idx}]; ok {
 		return s
 	}
 	sum := &rbwSummary{reads: map[string]string{}, writes: map[string]bool{}}
-	memo[fn] = sum
-	if len(fn.Blocks) == 0 || len(fn.Params) == 0 || depth > 6 {
+	memo[rbwKey{fn, idx}] = sum
+	if len(fn.Blocks) == 0 || len(fn.Params) <= idx || depth > 6 {
 		return sum
 	}
-	recv := ssa.Value(fn.Params[0])
+	recv := ssa.Value(fn.Params[idx])
 	in := map[*ssa.BasicBlock]map[string]bool{}
 	var retSets []map[string]bool
 	work := []*ssa.BasicBlock{fn.Blocks[0]}
@@ -157,7 +232,7 @@ func (e *Eng) rbw(fn *ssa.Function, memo map[*ssa.Function]*rbwSummary, depth in
 					w[p] = true
 				}
 			case *ssa.UnOp:
-				if p, ok := fieldPath(x.X, recv); ok && !covered(w, p) {
+				if p, ok := fieldPath(x.X, recv); ok && !covered(w, p) && !derefOnly(x) {
 					cls := "value"
 					if benignUse(x) {
 						cls = "len/cap/nil-test or [:0] only"
@@ -168,8 +243,15 @@ func (e *Eng) rbw(fn *ssa.Function, memo map[*ssa.Function]*rbwSummary, depth in
 				}
 			case *ssa.Call:
 				cal := x.Call.StaticCallee()
-				if cal != nil && cal.Pkg == fn.Pkg && len(x.Call.Args) > 0 && isRecvValue(x.Call.Args[0], recv) && len(cal.Blocks) > 0 {
-					cs := e.rbw(cal, memo, depth+1)
+				argIdx := -1
+				for k, a := range x.Call.Args {
+					if isRecvValue(a, recv) {
+						argIdx = k
+						break
+					}
+				}
+				if cal != nil && cal.Pkg == fn.Pkg && argIdx >= 0 && len(cal.Blocks) > 0 {
+					cs := e.rbwAt(cal, argIdx, memo, depth+1)
 					for p, cls := range cs.reads {
 						if !covered(w, p) {
 							if old, seen := sum.reads[p]; !seen || (old != "value" && cls == "value") {
@@ -187,6 +269,49 @@ func (e *Eng) rbw(fn *ssa.Function, memo map[*ssa.Function]*rbwSummary, depth in
 						_ = p
 					}
 				}
+			case *ssa.Go:
+				// fields assigned unconditionally (entry block) by a goroutine closure count as written from the go
+				// statement on: the join before any read is a separate obligation (join#compressors / shared#...)
+				if mc, isMC := x.Call.Value.(*ssa.MakeClosure); isMC {
+					cl := mc.Fn.(*ssa.Function)
+					for k, fv := range cl.FreeVars {
+						al, isAl := mc.Bindings[k].(*ssa.Alloc)
+						if !isAl {
+							continue
+						}
+						// the cell holds the tracked object
+						holds := false
+						for _, r := range *al.Referrers() {
+							if st, isSt := r.(*ssa.Store); isSt && st.Addr == ssa.Value(al) && isRecvValue(st.Val, recv) {
+								holds = true
+							}
+						}
+						if !holds || len(cl.Blocks) == 0 {
+							continue
+						}
+						for _, ci := range cl.Blocks[0].Instrs {
+							st, isSt := ci.(*ssa.Store)
+							if !isSt {
+								continue
+							}
+							// addr: FieldAddr chain over load(fv)
+							var parts []string
+							v := st.Addr
+							for {
+								fa, isFA := v.(*ssa.FieldAddr)
+								if !isFA {
+									break
+								}
+								stt := fa.X.Type().Underlying().(*types.Pointer).Elem().Underlying().(*types.Struct)
+								parts = append([]string{stt.Field(fa.Field).Name()}, parts...)
+								v = fa.X
+							}
+							if ld, isLd := v.(*ssa.UnOp); isLd && ld.X == ssa.Value(fv) && len(parts) > 0 {
+								w[strings.Join(parts, ".")] = true
+							}
+						}
+					}
+				}
 			case *ssa.Return:
 				cp := map[string]bool{}
 				for k := range w {
@@ -195,7 +320,50 @@ func (e *Eng) rbw(fn *ssa.Function, memo map[*ssa.Function]*rbwSummary, depth in
 				retSets = append(retSets, cp)
 			}
 		}
+		emptyOn := map[*ssa.BasicBlock]string{}
+		if len(b.Instrs) > 0 {
+			if iff, isIf := b.Instrs[len(b.Instrs)-1].(*ssa.If); isIf {
+				if bin, isBin := iff.Cond.(*ssa.BinOp); isBin && (bin.Op == token.GTR || bin.Op == token.NEQ) {
+					if c, isC := bin.Y.(*ssa.Const); isC && c.Value != nil && c.Int64() == 0 {
+						if call, isCall := bin.X.(*ssa.Call); isCall {
+							if bi, isB := call.Call.Value.(*ssa.Builtin); isB && bi.Name() == "len" {
+								if ld, isLd := call.Call.Args[0].(*ssa.UnOp); isLd {
+									if p, ok := fieldPath(ld.X, recv); ok {
+										emptyOn[b.Succs[1]] = p
+									}
+								}
+							}
+						}
+					}
+				}
+			}
+		}
 		for _, s := range b.Succs {
+			if p, isE := emptyOn[s]; isE {
+				// edge-specific fact: copy w with p added
+				w2 := map[string]bool{}
+				for k := range w {
+					w2[k] = true
+				}
+				w2[p] = true
+				old, ok := in[s]
+				if !ok {
+					in[s] = w2
+					work = append(work, s)
+					continue
+				}
+				changed := false
+				for k := range old {
+					if !w2[k] {
+						delete(old, k)
+						changed = true
+					}
+				}
+				if changed {
+					work = append(work, s)
+				}
+				continue
+			}
 			old, ok := in[s]
 			if !ok {
 				ns := map[string]bool{}
@@ -240,8 +408,7 @@ func (e *Eng) reuseObligations() {
 	if pm == nil {
 		return
 	}
-	memo := map[*ssa.Function]*rbwSummary{}
-	s := e.rbw(pm, memo, 0)
+	s := e.rbw(pm, nil, 0)
 	// fields whose earlier VALUE may flow into this call. indexChans is expected: the channel object is reused and
 	// must be empty (terminator/drain obligations); buffers are overwritten slot by slot before being sent.
 	expected := map[string]string{
@@ -285,6 +452,84 @@ func (e *Eng) reuseObligations() {
 				}
 			}
 		}
-		e.add("reuse#options-reset", funcKey(nip), []string{"C15", "C16"}, setsCopy, "copyStrings is reset to its default (true) before the options of this call are applied")
+		// ... on EVERY path, before any option of this call is applied and before the object is returned
+		isSet := func(in ssa.Instruction) bool {
+			st, ok := in.(*ssa.Store)
+			if !ok {
+				return false
+			}
+			fa, ok := st.Addr.(*ssa.FieldAddr)
+			if !ok {
+				return false
+			}
+			stt := fa.X.Type().Underlying().(*types.Pointer).Elem().Underlying().(*types.Struct)
+			c, isC := st.Val.(*ssa.Const)
+			return stt.Field(fa.Field).Name() == "copyStrings" && isC && c.Value != nil && c.Value.String() == "true"
+		}
+		usesObj := func(in ssa.Instruction) bool {
+			switch x := in.(type) {
+			case *ssa.Call:
+				return x.Call.StaticCallee() == nil && !x.Call.IsInvoke() // opt(pj)
+			case *ssa.Return:
+				if len(x.Results) > 0 {
+					if c, isC := x.Results[0].(*ssa.Const); isC && c.IsNil() {
+						return false
+					}
+					return true
+				}
+			}
+			return false
+		}
+		detail := "copyStrings is reset to its default (true) on every path before the options of this call are applied"
+		if setsCopy {
+			if r, w := reachWithout(ipos{nip.Blocks[0], -1}, usesObj, isSet); r {
+				setsCopy = false
+				detail = "the options are applied / the parser object is returned at " + e.pos(w) + " on a path that did not reset copyStrings: a reused object keeps the previous call's mode"
+			}
+		}
+		e.add("reuse#options-reset", funcKey(nip), []string{"C15", "C16"}, setsCopy, detail)
+	}
+}
+
+// serializerReuse (C15, C11): which fields of a reused destination ParsedJson / Serializer can carry their earlier
+// VALUE into Serialize / Deserialize.
+func (e *Eng) serializerReuse() {
+	type tgt struct {
+		fn       string
+		idx      int
+		name     string
+		expected map[string]string
+	}
+	modes := "configuration chosen by CompressMode (constructor/setter), not per-call state"
+	for _, t := range []tgt{
+		{"(*Serializer).Deserialize", 2, "reuse#dst-reads-before-writes", map[string]string{}},
+		{"(*Serializer).Deserialize", 0, "reuse#serializer-reads-before-writes", map[string]string{}},
+		{"(*Serializer).Serialize", 0, "reuse#serializer-reads-before-writes", map[string]string{
+			"compValues": modes, "compTags": modes, "compStrings": modes, "fasterComp": modes, "maxBlockSize": modes}},
+	} {
+		fn := e.fn(t.fn)
+		if fn == nil {
+			e.add(t.name, t.fn, []string{"C15", "C11"}, false, "function not found")
+			continue
+		}
+		sum := e.rbwAt(fn, t.idx, map[rbwKey]*rbwSummary{}, 0)
+		var bad, benign, keys []string
+		for p := range sum.reads {
+			keys = append(keys, p)
+		}
+		sort.Strings(keys)
+		for _, p := range keys {
+			cls := sum.reads[p]
+			switch {
+			case strings.HasPrefix(cls, "len/cap"):
+				benign = append(benign, p+" ["+cls+"]")
+			case t.expected[p] != "":
+				benign = append(benign, p+" ["+t.expected[p]+"]")
+			default:
+				bad = append(bad, p+" ["+cls+"]")
+			}
+		}
+		e.add(t.name, funcKey(fn), []string{"C15", "C11"}, len(bad) == 0,
+			fmt.Sprintf("value carried over: %s | benign: %s", strings.Join(bad, "; "), strings.Join(benign, "; ")))
 	}
 }
